@@ -64,7 +64,7 @@ type op struct {
 	K     string `json:"k"` // start stop advance counters outage graceful crash
 	S     int    `json:"s,omitempty"`
 	Cause uint32 `json:"cause,omitempty"`
-	D     int    `json:"d,omitempty"` // seconds (advance; downtime for graceful/crash)
+	D     int    `json:"d,omitempty"` // seconds (advance; downtime for graceful/crash); milliseconds (slow, pause)
 	In    uint64 `json:"in,omitempty"`
 	Out   uint64 `json:"out,omitempty"`
 	On    bool   `json:"on,omitempty"`
@@ -86,6 +86,10 @@ func (o op) String() string {
 		return fmt.Sprintf("gracefulStop+restart(%ds)", o.D)
 	case "crash":
 		return fmt.Sprintf("crash+restart(%ds)", o.D)
+	case "slow":
+		return fmt.Sprintf("slow(>=%dms)", o.D)
+	case "pause":
+		return fmt.Sprintf("pause(%dms)", o.D)
 	}
 	return o.K
 }
@@ -94,7 +98,10 @@ type history struct {
 	Cfg  cfgSpec           `json:"cfg"`
 	Sess []sessSpec        `json:"sessions"`
 	Plan map[string][]bool `json:"plan"` // "sid|type" -> per-request pattern, true = down
-	Ops  []op              `json:"ops"`
+	// Lat: "sid|kind" -> latency in ms of the n-th send of that stream (kind d = direct send of a
+	// Start/Stop incl. drain and recovery, r = send from the retry queue, i = interim); >= 3000 = lost
+	Lat map[string][]int `json:"lat,omitempty"`
+	Ops []op             `json:"ops"`
 }
 
 func (h *history) String() string {
@@ -112,6 +119,17 @@ func (h *history) String() string {
 	for _, k := range keys {
 		if len(h.Plan[k]) > 0 {
 			fmt.Fprintf(&b, "%s:%s ", k, pat(h.Plan[k]))
+		}
+	}
+	b.WriteString("} lat={")
+	keys = keys[:0]
+	for k := range h.Lat {
+		keys = append(keys, k)
+	}
+	sort.Strings(keys)
+	for _, k := range keys {
+		if len(h.Lat[k]) > 0 {
+			fmt.Fprintf(&b, "%s:%v ", k, h.Lat[k])
 		}
 	}
 	b.WriteString("} ops=")
@@ -192,6 +210,7 @@ type outcome struct {
 	stopDown bool // some Stop request was answered "down" (outage overlaps a stop)
 	big      bool // some record carried a counter > 2^32
 	final    []string
+	sends    []*sendRec // every SendAccounting as seen at the dial hook (latency_test.go)
 }
 
 type runner struct {
@@ -210,6 +229,21 @@ type runner struct {
 	crashes int
 
 	mgr *radius.AccountingManager
+
+	// request latency (latency_test.go)
+	t0            time.Time
+	deadCh        chan struct{} // closed when the process dies: travelling requests are dropped
+	pendingSend   map[uint64]string
+	sends         []*sendRec
+	srvAddrSuffix string
+}
+
+// die marks the process as crashed.  Caller holds r.mu.
+func (r *runner) die() {
+	if !r.dead {
+		r.dead = true
+		close(r.deadCh)
+	}
 }
 
 // hook runs at every crash-point marker, on the manager's goroutine.
@@ -223,8 +257,11 @@ func (r *runner) hook(site, sid string) {
 	n := r.counts[k]
 	r.counts[k] = n + 1
 	r.out.markers = append(r.out.markers, markerRec{crashSel{site, sid, n}, r.opIdx, r.epoch})
+	if strings.HasSuffix(site, ".send.before") {
+		r.noteSend(sid)
+	}
 	if r.sel != nil && !r.out.fired && r.sel.Site == site && r.sel.SID == sid && r.sel.N == n {
-		r.dead = true
+		r.die()
 		r.out.fired = true
 		r.out.firedOp = r.opIdx
 		c := r.crashes + 1
@@ -356,7 +393,7 @@ func (r *runner) stamp() {
 func (r *runner) crashAndRestart(downtime int) {
 	synctest.Wait()
 	r.mu.Lock()
-	r.dead = true
+	r.die()
 	r.mu.Unlock()
 	r.mgr.VerifKill()
 	synctest.Wait()
@@ -383,10 +420,17 @@ func (r *runner) crashAndRestart(downtime int) {
 		if snap.SessionFiles[id] || snap.PendingStops[id] {
 			continue // durable: restart must produce the Stop
 		}
-		attempted := false // a Stop for the session reached the server (and was rejected)
+		attempted := false // a Stop for the session reached the server (and was rejected) or was lost on the way
 		for _, e := range log {
 			attempted = attempted || (e.SID == id && e.Type == tStop)
 		}
+		r.mu.Lock()
+		for _, sr := range r.sends {
+			if sr.SID == id && sr.Lost && (sr.Site == "stop" || sr.Site == "drain" || sr.Site == "recover") {
+				attempted = true
+			}
+		}
+		r.mu.Unlock()
 		switch {
 		case st.startEpoch < r.epoch && attempted:
 			st.lostClass = "recovered-stop-only-in-memory"
@@ -405,6 +449,7 @@ func (r *runner) crashAndRestart(downtime int) {
 	time.Sleep(time.Duration(downtime)*time.Second + time.Millisecond)
 	r.mu.Lock()
 	r.dead = false
+	r.deadCh = make(chan struct{})
 	r.epoch++
 	r.mu.Unlock()
 	r.stamp()
@@ -468,6 +513,11 @@ func (r *runner) apply(i int, o op) {
 		st.counters = append(st.counters, ctrVal{o.In, o.Out, r.srv.logLen()})
 	case "outage":
 		r.srv.set(func() { r.srv.outage = o.On })
+	case "slow":
+		r.srv.set(func() { r.srv.slowMs = o.D })
+	case "pause":
+		time.Sleep(time.Duration(o.D) * time.Millisecond)
+		synctest.Wait()
 	case "graceful":
 		how := "left-by-shutdown"
 		if r.h.Cfg.Drain {
@@ -524,15 +574,22 @@ func execute(t *testing.T, h *history, sel *crashSel) *outcome {
 	}
 	defer srv.close()
 
-	r := &runner{h: h, dir: dir, srv: srv, out: out, sel: sel, counts: map[string]int{}, cur: map[string][2]uint64{}}
+	srv.set(func() { srv.lat, srv.timeoutMs = h.Lat, clientTimeoutMs })
+
+	r := &runner{h: h, dir: dir, srv: srv, out: out, sel: sel, counts: map[string]int{}, cur: map[string][2]uint64{},
+		pendingSend: map[uint64]string{}}
 	for _, sp := range h.Sess {
 		out.sess = append(out.sess, &sessState{counters: []ctrVal{{0, 0, 0}, {sp.In0, sp.Out0, 0}}})
 		r.cur[sp.ID] = [2]uint64{sp.In0, sp.Out0}
 	}
 	radius.VerifSetCrashHook(r.hook)
 	defer radius.VerifSetCrashHook(nil)
+	r.installLatency()
+	defer uninstallLatency()
 
 	synctest.Test(t, func(t *testing.T) {
+		r.t0 = time.Now()
+		r.deadCh = make(chan struct{}) // made inside the bubble: a select on it must block durably
 		r.stamp()
 		r.newManager()
 		if out.trouble != "" {
@@ -559,7 +616,7 @@ func execute(t *testing.T, h *history, sel *crashSel) *outcome {
 			r.opIdx = -1
 			r.mu.Unlock()
 			r.stamp()
-			srv.set(func() { srv.forceUp, srv.outage = true, false })
+			srv.set(func() { srv.forceUp, srv.outage, srv.fast = true, false, true })
 			for round := 0; round < 2; round++ {
 				for s := 0; s < h.Cfg.horizon() && !r.isDead(); s++ {
 					time.Sleep(time.Second)
@@ -577,13 +634,19 @@ func execute(t *testing.T, h *history, sel *crashSel) *outcome {
 		// what is durable at the very end (for diagnostics only)
 		r.snapshotDir(false)
 		r.mu.Lock()
-		r.dead = true // end of case: nothing may act any more
+		r.die() // end of case: nothing may act any more
 		r.mu.Unlock()
 		r.mgr.VerifKill()
 		synctest.Wait()
 		r.fence()
 	})
 	out.log = srv.snapshot()
+	out.sends = r.sends
+	linkSends(out.log, out.sends)
+	if len(out.log) > 0 && len(out.sends) == 0 && out.trouble == "" {
+		// the client no longer sends through layeh's DefaultClient: latencies were not applied
+		out.trouble = "dial hook never ran although the server received requests (transport of pkg/radius changed?)"
+	}
 	srv.set(func() { out.bad = append(out.bad, srv.bad...) })
 	for _, e := range out.log {
 		if e.Type == tStop && !e.Accepted {
